@@ -175,7 +175,7 @@ def parseAttribute (a : AttrShape) : Prog (Nat × Option AAttr) := do
       match value with
       | none => pure (ret, none)
       | some value => do
-        if value.len > 0 then deref (name.map (·.hdr))
+        derefWhen (value.len > 0) (name.map (·.hdr))
         let (value, ok) ← (if value.len > 0 then bufAppendChar value 0 else pure (value, true))
         if !ok then do
           nameDestroy name
